@@ -273,3 +273,81 @@ func randSize(rng *Rand, maxDim int) (int, int) {
 	}
 	return pick(), pick()
 }
+
+// skewedImage ("skewed-categories"): an image whose left-neighbour differences have the
+// categories 0..P with Fibonacci counts that DECREASE with the category: count(c) = fib(P-c),
+// so category P (and P-1) occur once, the low categories hundreds of times.  The optimal Huffman
+// code is then maximally skewed: the RARE HIGH categories (which also carry the most magnitude
+// bits) get the LONGEST codes — for P = 16 the unrestricted depth is 17, so the 16-bit length
+// limiter works through the real encoder, and code length + magnitude bits reaches 30..31 bits in
+// one symbol.  The differences are shuffled, so the long symbols fall on varying bit phases.
+// Each row is one walk; with h = 1 every predictor 1..7 sees these differences (first-line
+// rule); with h > 1 the rows repeat the walk (predictor 1 sees it h times, the vertical
+// predictors mostly zeros).  Components carry independent walks over the same multiset.
+func skewedImage(rng *Rand, p, comps, h int) *Img {
+	fib := []int{1, 1}
+	for len(fib) < p+1 {
+		fib = append(fib, fib[len(fib)-1]+fib[len(fib)-2])
+	}
+	var cats []int
+	for c := 0; c <= p; c++ {
+		for j := 0; j < fib[p-c]; j++ {
+			cats = append(cats, c)
+		}
+	}
+	max := 1<<uint(p) - 1
+	w := len(cats) + 1
+	walk := func() []int {
+		cs := append([]int{}, cats...)
+		for i := len(cs) - 1; i > 0; i-- {
+			j := rng.Intn(i + 1)
+			cs[i], cs[j] = cs[j], cs[i]
+		}
+		x := 1 << uint(p-1) // first sample: difference 0 from the default prediction
+		row := []int{x}
+		for _, c := range cs {
+			var d int
+			switch {
+			case c == 0:
+				d = 0
+			case c == 16:
+				d = 32768
+			default:
+				d = 1<<uint(c-1) + rng.Intn(1<<uint(c-1))
+			}
+			ok := func(d int) (int, bool) {
+				up, down := x+d <= max, x-d >= 0
+				switch {
+				case up && (!down || rng.Bool()):
+					return x + d, true
+				case down:
+					return x - d, true
+				}
+				return 0, false
+			}
+			nx, good := ok(d)
+			if !good && c > 0 && c < 16 {
+				nx, good = ok(1 << uint(c-1)) // the smallest magnitude of the category always fits
+			}
+			if !good {
+				nx = x
+			}
+			x = nx
+			row = append(row, x)
+		}
+		return row
+	}
+	rows := make([][]int, comps)
+	for k := range rows {
+		rows[k] = walk()
+	}
+	im := &Img{W: w, H: h, C: comps, P: p, Kind: "skewed", S: make([]int, w*h*comps)}
+	for y := 0; y < h; y++ {
+		for x := 0; x < w; x++ {
+			for k := 0; k < comps; k++ {
+				im.S[(y*w+x)*comps+k] = rows[k][x]
+			}
+		}
+	}
+	return im
+}
